@@ -1,5 +1,5 @@
 """C02 — each consumer gets every upstream message at most once, in order, unaltered."""
-from .. import protocol
+from .. import protocol, pipeline
 
 ID = 'C02'
 PROP_FILES = ['C02', 'C02s', 'C02Verbatim']
@@ -16,3 +16,4 @@ def run(ctx):
     n = 8000 if ctx.thorough else (3000 if ctx.escalate else 800)
     protocol.recv_campaign(ctx, 'C02', n, ['wf', 'adv', 'adv', 'bal'])
     protocol.send_campaign(ctx, 'C02', n, ['sync', 'adv', 'adv', 'bal'])
+    if not ctx.replay: pipeline.campaign_sets(ctx, 'C02', 400 if ctx.thorough else 40)
